@@ -661,11 +661,13 @@ _HANGS = [0]
 
 
 def cpu_budget(prob):
-    """CPU seconds one pipeline run may use: ~100x what the largest ordinary case needs; 3 s once three calls have
-    not returned in this run"""
-    if _HANGS[0] >= 3:
-        return 3
-    return 240 if prob.get("scale") else 40
+    """CPU seconds one pipeline run may use: ~100x what the largest ordinary case needs; 3 s (annealer: 10 s) once
+    two calls have not returned in this run"""
+    # ordinary cases: <= 0.13 s (the Python annealer: <= 1.7 s); scale cases: <= 1 s
+    slow = prob["cfg"].get("placer") == "sa-python"
+    if _HANGS[0] >= 2:
+        return 10 if slow else 3
+    return 120 if prob.get("scale") else (60 if slow else 10)
 
 
 def run_pipeline(prob, o=None, fail_at=None):
@@ -964,7 +966,7 @@ def lean_requests(prob, out, rng):
     routes = out["routes"]
     exp = expected(prob, out)
     # 1. the oracle: deliver on the final tables
-    t1 = tables_c04(out["tables1"])
+    t1 = out["_t1"] = tables_c04(out["tables1"])
     queries = []
     qmeta = []
     for i, (n, p) in enumerate(zip(nets, prob["nets"])):
@@ -975,12 +977,13 @@ def lean_requests(prob, out, rng):
                      dev=[[d[1], d[2], d[3]] for d in prob["devices"]], queries=queries))
     idx.append(("deliver", qmeta))
     # 1b. same packets on the unminimised tables (localises a failure to the minimiser)
-    t0 = tables_c04(out["tables0"])
+    t0 = out["_t0"] = tables_c04(out["tables0"])
     reqs.append(dict(mj, suite="c01", op="deliver", tables=[[c[0], c[1], t] for c, t in t0.items()],
                      dev=[[d[1], d[2], d[3]] for d in prob["devices"]], queries=queries))
     idx.append(("deliver0", qmeta))
-    if prob.get("scale"):
-        # far beyond the usual size: the delivery oracle only (the stage ties are exercised at ordinary sizes)
+    if prob.get("scale") or prob.get("light"):
+        # far beyond the usual size / inside a history: the delivery oracle only (the stage ties are exercised by
+        # the ordinary stream)
         return reqs, idx
     # 2. C10 model on the implementation's trees
     c10nets = [{"key": p[3], "mask": p[4], "tree": tree_c10(routes[n])} for n, p in zip(nets, prob["nets"])]
@@ -1034,8 +1037,8 @@ def lean_requests(prob, out, rng):
 def judge(prob, out, replies, idx):
     """-> (findings, tags, nontrivial); findings = [(kind, key, what)] with kind in {violation, mismatch}"""
     findings, tags = [], []
-    t0 = tables_c04(out["tables0"])
-    t1 = tables_c04(out["tables1"])
+    t0 = out["_t0"] if "_t0" in out else tables_c04(out["tables0"])
+    t1 = out["_t1"] if "_t1" in out else tables_c04(out["tables1"])
     bad0 = set()
     for (what, meta), r in zip(idx, replies):
         if "proto_error" in r if isinstance(r, dict) else False:
@@ -1111,13 +1114,15 @@ def minfailed_model_check(prob, out):
     return req, want
 
 
-def eval_problems(ctx, probs, register=True):
-    """run pipelines, one Lean batch for all; returns list of (prob, status, findings)"""
+def eval_problems(ctx, probs, register=True, runner=None, after=None):
+    """run pipelines, one Lean batch for all; returns list of (prob, status, findings).  `runner(prob)` replaces the
+    plain call of the pipeline (histories: the caller's objects live on between calls); `after(prob, out)` runs once
+    the Lean requests for this run have been written down (what the caller does with the results afterwards)"""
     runs = []
     reqs, spans = [], []
     for prob in probs:
         t = time.time()
-        out = run_pipeline(prob)
+        out = (runner or run_pipeline)(prob)
         out["wall"] = time.time() - t
         r, idx = [], []
         extra = None
@@ -1129,6 +1134,8 @@ def eval_problems(ctx, probs, register=True):
         spans.append((len(reqs), len(reqs) + len(r), idx))
         reqs += r
         runs.append(out)
+        if after is not None:
+            after(prob, out)
     replies = ctx.lean(reqs) if reqs else []
     results = []
     for prob, out, (a, b, idx) in zip(probs, runs, spans):
@@ -1849,6 +1856,10 @@ def register_seq_result(ctx, seq, k, res):
             note = (" [history-dependent: failed after earlier pipeline runs in this process, passes alone; the sequence "
                     "alone in a fresh interpreter did not reproduce it (the state came from other runs of this process)]")
             ctx.tag("seq_violation_not_reproduced")
+            # observed in this process only: there is no input that reproduces it, so it is recorded as a broken
+            # correspondence (the check fails, 'no failing input found'), not as a violation with a useless replay
+            ctx.mismatch("c01.failed-after-other-runs-of-this-process", what + note, case)
+            continue
         done.add(key)
         ctx.violation(key, what + note, case)
     ctx.case(case, True)
@@ -1888,6 +1899,405 @@ def eval_sequences(ctx, nseq):
                 if k > 0 and merges_of(out):
                     ctx.tag("seq_later_run_merged")
                 register_seq_result(ctx, q["probs"], k, res)
+
+
+# --------------------------------------------------------------------------------------------
+# SCALE: a handful of cases far beyond the usual size (judged by the delivery oracle only)
+# --------------------------------------------------------------------------------------------
+SCALE_KINDS = ["long-1xN", "long-Nx1", "long-2xN", "fanout", "many-nets", "long-repaired"]
+
+
+def gen_scale_problem(rng, kind, lengths=(1500, 2048, 3000, 4000)):
+    cfg = gen_cfg(rng)
+    cfg.update(placer=rng.choice(["sequential", "breadth_first", "rand"]), pvar=0, radius=rng.choice([0, 2, 20, None]),
+               api=rng.choice(["manual", "manual", "manual-sysinfo", "wrapper"]), target=None, target_dict=False,
+               methods=rng.choice(["default", "rd"]), tables_api="rt2t", vkind=rng.choice(["int", "str", "tuple"]),
+               big=None, memvar=False)
+    prob = dict(dead_chips=[], ncores=18, exc=[], busy=[], sdram=100000, rtr=1023, rtr_exc=[], devices=[], cs=[],
+                seed=rng.randrange(1 << 30), c03_rseed=None, cfg=cfg, scale=kind, fill=3)
+    if kind.startswith("long"):
+        n = rng.choice(list(lengths))
+        w, h = {"long-1xN": (1, n), "long-Nx1": (n, 1), "long-2xN": (2, n), "long-repaired": (2, n)}[kind]
+        dl = set()
+        if rng.random() < 0.6:
+            # a mesh: every link that leaves the rectangle is dead (trees as deep as the machine is long)
+            for x in range(w):
+                for y in range(h):
+                    for l, (dx, dy) in enumerate(VECS):
+                        if not (0 <= x + dx < w and 0 <= y + dy < h):
+                            dl.add((x, y, l))
+        if kind == "long-repaired":
+            # the north link of both columns is dead near one end: the repair has to deal with disconnected subtrees
+            # about as deep as the machine is long
+            for x in range(w):
+                y = rng.randrange(1, max(2, h // 10))
+                dl.add((x, y, 2))
+                dl.add((x, y + 1, 5))
+        prob.update(w=w, h=h, dead_links=sorted(map(list, dl)))
+        long_side = max(w, h)
+        spots = sorted(set([0, long_side - 1, long_side // 2] + [rng.randrange(long_side) for _ in range(3)]))
+        vr, cs = [], []
+        for i, pos in enumerate(spots):
+            vr.append([i, rng.choice([1, 2]), 0])
+            c = [pos, 0] if w >= h else [rng.randrange(w), pos]
+            cs.append({"t": "loc", "v": i, "c": c})
+        nets = [[0, list(range(1, len(vr))), 1], [len(vr) - 1, [0], 1], [len(vr) // 2, [0, len(vr) - 1], 1]]
+        prob.update(vr=vr, cs=cs)
+    elif kind == "fanout":
+        w = h = 8
+        prob.update(w=w, h=h, dead_links=[], busy=[[x, y, [0]] for x in range(w) for y in range(h)])
+        nv = 420
+        vr = [[i, 1 if i % 50 else rng.choice([None, 0, 2]), 0] for i in range(nv)]
+        sinks = rng.sample(range(nv), 300)
+        nets = [[0, sinks, 1], [1, rng.sample(range(nv), 257), 1], [2, [rng.randrange(nv) for _ in range(300)], 1]]
+        prob.update(vr=vr)
+    else:
+        w, h = rng.choice([(2, 2), (3, 3), (4, 2)])
+        prob.update(w=w, h=h, dead_links=[], busy=[[x, y, [0]] for x in range(w) for y in range(h)])
+        vr = [[i, 1, 0] for i in range(12)]
+        groups = [[rng.randrange(12), [rng.randrange(12) for _ in range(rng.choice([1, 2, 3]))]] for _ in range(3)]
+        nets = [list(groups[i % 3]) + [1] for i in range(rng.choice([257, 300, 400]))]
+        nets = [[g[0], list(g[1]), 1] for g in nets]
+        prob.update(vr=vr)
+    keys = gen_keys(rng, len(nets))
+    prob["nets"] = [[s_, k, wt, keys[i][0], keys[i][1]] for i, (s_, k, wt) in enumerate(nets)]
+    return prob
+
+
+def eval_scale(ctx, n):
+    for i in range(n):
+        # every third case repairs a deep tree, every third is a long machine, every third has hundreds of sinks / nets
+        kind = [["long-repaired"], ["long-1xN", "long-Nx1", "long-2xN"], ["fanout", "many-nets"]][i % 3]
+        kind = ctx.rng.choice(kind)
+        prob = gen_scale_problem(ctx.rng, kind, (1500, 2048) if ctx.quick else (1500, 2048, 3000, 4000))
+        t = time.time()
+        res = eval_problems(ctx, [prob], register=True)
+        ctx.tag("scale_" + kind, "scale_status_" + res[0][1])
+        if time.time() - t > 20:
+            ctx.tag("scale_case_over_20s")
+
+
+# --------------------------------------------------------------------------------------------
+# HISTORIES: one caller, one process - calls repeated, twins in both orders, two applications alternately, the
+# caller editing what it passed and what it was handed back, keeping earlier results, callbacks that fail
+# --------------------------------------------------------------------------------------------
+HIST_SIZES = [(1, 1), (2, 1), (1, 2), (2, 2), (3, 2), (3, 3), (4, 4), (5, 1), (6, 4)]
+HIST_KINDS = ["repeat", "twins", "twins", "edit-passed", "edit-passed", "scribble", "keep", "alternate", "fault"]
+TWIN_ASPECTS = ["net-drop", "sink-add", "sink-drop", "dead-link", "dead-link", "dead-link", "cores", "option", "swap-keys",
+                "busy-core"]
+
+
+def reload_rig():
+    """forget the rig modules: a history starts with freshly imported modules, so that a replay of the history in a
+    new process sees what the run saw (module-level / class-level / default-argument state)"""
+    import sys
+    for k in [k for k in sys.modules if k == "rig" or k.startswith("rig.")]:
+        del sys.modules[k]
+    _SUBCLASSES.clear()
+
+
+def gen_twin(rng, prob):
+    """a problem equal to `prob` in all but one aspect; -> (twin, aspect)"""
+    import copy
+    tw = copy.deepcopy(prob)
+    tw["seed"] = prob["seed"]
+    for _ in range(8):
+        a = rng.choice(TWIN_ASPECTS)
+        nets = tw["nets"]
+        nv = len(tw["vr"])
+        if a == "net-drop" and len(nets) > 1:
+            del nets[rng.randrange(len(nets))]
+        elif a == "sink-add" and nets:
+            nets[rng.randrange(len(nets))][1].append(rng.randrange(nv))
+        elif a == "sink-drop" and any(n[1] for n in nets):
+            n = rng.choice([n for n in nets if n[1]])
+            del n[1][rng.randrange(len(n[1]))]
+        elif a == "dead-link":
+            # the fault map differs: one more dead link, or (half of the time) 15% of the links
+            dl = set(map(tuple, tw["dead_links"]))
+            n0 = len(dl)
+            for _ in range(1 if rng.random() < 0.3 else max(2, (6 * tw["w"] * tw["h"]) * 15 // 100)):
+                dl.add((rng.randrange(tw["w"]), rng.randrange(tw["h"]), rng.randrange(6)))
+            if len(dl) == n0:
+                continue
+            tw["dead_links"] = sorted(map(list, dl))
+        elif a == "cores":
+            cand = [v for v in tw["vr"] if v[1] and not any(d[0] == v[0] for d in tw["devices"])]
+            if not cand:
+                continue
+            v = rng.choice(cand)
+            v[1] = max(0, v[1] + rng.choice([-1, 1]))
+        elif a == "option":
+            f = rng.choice(["methods", "target", "radius", "placer"])
+            new = {"methods": rng.choice(["default", "rd", "oc", "none"]), "target": rng.choice(TARGETS),
+                   "radius": rng.choice(RADII), "placer": rng.choice(PLACERS)}[f]
+            if new == tw["cfg"][f] or (f == "placer" and new == "sa-c" and tw["cfg"].get("big")):
+                continue
+            tw["cfg"][f] = new
+        elif a == "swap-keys" and len(nets) > 1:
+            i, j = rng.sample(range(len(nets)), 2)
+            nets[i][3], nets[i][4], nets[j][3], nets[j][4] = nets[j][3], nets[j][4], nets[i][3], nets[i][4]
+        elif a == "busy-core":
+            dead = set(map(tuple, tw["dead_chips"]))
+            live = [(x, y) for x in range(tw["w"]) for y in range(tw["h"]) if (x, y) not in dead]
+            c = rng.choice(live)
+            k = cores_map(tw)[c]
+            b = [e for e in tw["busy"] if (e[0], e[1]) == c]
+            core = rng.randrange(k)
+            if b:
+                if core in b[0][2]:
+                    continue
+                b[0][2] = sorted(b[0][2] + [core])
+            else:
+                tw["busy"].append([c[0], c[1], [core]])
+        else:
+            continue
+        return tw, a
+    return tw, "none"
+
+
+def gen_history(rng):
+    kind = rng.choice(HIST_KINDS)
+    cfg = gen_cfg(rng)
+    if rng.random() < 0.4:
+        cfg["api"] = rng.choice(["wrapper", "manual-sysinfo"])
+    A = gen_problem(rng, HIST_SIZES, cfg, faulty=rng.random() < 0.2)
+    A["nets"] = A["nets"][:12]
+    A["light"] = True
+    A2, aspect = gen_twin(rng, A)
+    probs = [A, A2]
+    new, same, edit = "new", "same", "edit"
+
+    def st(p, objs, **kw):
+        d = {"p": p, "objs": objs}
+        d.update(kw)
+        return d
+    if kind == "repeat":
+        steps = [st(0, new), st(0, same), st(0, same), st(1, edit)]
+    elif kind == "twins":
+        order = rng.choice([[0, 1], [1, 0], [0, 1, 0], [1, 0, 1]])
+        steps = [st(p, new, reuse_ids=True) for p in order]
+    elif kind == "edit-passed":
+        # the caller walks between the application and two twins of it, editing its objects in place every time
+        A3, aspect3 = gen_twin(rng, A)
+        probs = [A, A2, A3]
+        aspect = "%s,%s" % (aspect, aspect3)
+        cur = rng.randrange(3)
+        steps = [st(cur, new)]
+        for _ in range(rng.choice([3, 4, 5, 6])):
+            cur = rng.choice([p for p in range(3) if p != cur])
+            steps.append(st(cur, edit))
+    elif kind == "scribble":
+        steps = [st(0, new, scribble=True), st(0, same, scribble=True), st(1, edit, scribble=True), st(1, same)]
+    elif kind == "keep":
+        steps = [st(0, new), st(1, new, reuse_ids=True), st(0, same), st(1, same), st(0, edit)]
+    elif kind == "alternate":
+        B = gen_problem(rng, HIST_SIZES, gen_cfg(rng), faulty=False)
+        B["nets"] = B["nets"][:12]
+        B["light"] = True
+        probs = [A, B]
+        aspect = "other-application"
+        steps = [st(0, new), st(1, new), st(0, same), st(1, same)]
+        if rng.random() < 0.5:
+            steps += [st(0, same), st(1, same)]
+    else:
+        stages = ["place", "allocate", "route", "minimise"]
+        steps = [st(0, new, fail=rng.choice(stages)), st(0, same), st(1, edit, fail=rng.choice(stages)), st(1, same)]
+    return {"kind": kind, "aspect": aspect, "probs": probs, "steps": steps}
+
+
+def edit_in_place(old, new):
+    """the caller edits, in place, every mutable object it passed last time so that it now describes `new`"""
+    if set(old) != set(new) or type(old.get("machine")) is not type(new.get("machine")):
+        return new
+    for k in list(old["vr"]):
+        if k not in new["vr"]:
+            del old["vr"][k]
+    for k, d in new["vr"].items():
+        if k in old["vr"]:
+            old["vr"][k].clear()
+            old["vr"][k].update(d)
+        else:
+            old["vr"][k] = d
+    onets, nnets = old["nets"], new["nets"]
+    for i, n in enumerate(nnets):
+        if i < len(onets):
+            onets[i].source, onets[i].weight = n.source, n.weight
+            onets[i].sinks[:] = n.sinks
+        else:
+            onets.append(n)
+    del onets[len(nnets):]
+    old["net_keys"].clear()
+    for on, nn in zip(onets, nnets):
+        old["net_keys"][on] = new["net_keys"][nn]
+    old["user_cs"][:] = new["user_cs"]
+    if "cs" in old:
+        old["cs"][:] = new["cs"]
+    if "machine" in old:
+        mo, mn = old["machine"], new["machine"]
+        mo.width, mo.height = mn.width, mn.height
+        mo.chip_resources.clear()
+        mo.chip_resources.update(mn.chip_resources)
+        mo.chip_resource_exceptions.clear()
+        mo.chip_resource_exceptions.update(mn.chip_resource_exceptions)
+        for attr in ("dead_chips", "dead_links"):
+            if isinstance(getattr(mo, attr), set):
+                getattr(mo, attr).clear()
+                getattr(mo, attr).update(getattr(mn, attr))
+            else:
+                setattr(mo, attr, getattr(mn, attr))
+    si = old["sysinfo"]
+    si.clear()
+    si.update(new["sysinfo"])
+    si.width, si.height = new["sysinfo"].width, new["sysinfo"].height
+    old["apps"].clear()
+    old["apps"].update(new["apps"])
+    old["V"], old["Vinv"] = new["V"], new["Vinv"]
+    return old
+
+
+def scribble(out):
+    """the caller edits, in place, everything it was handed back (nested objects included)"""
+    from rig.place_and_route.routing_tree import RoutingTree
+    for name in ("tables1", "tables0"):
+        for t in list(out[name].values()):
+            for e in t:
+                e.sources.clear()
+                e.sources.add(None)
+            del t[:]
+        out[name].clear()
+    todo = [t for t in out["routes"].values()]
+    seen = set()
+    while todo:
+        t = todo.pop()
+        if id(t) in seen:
+            continue
+        seen.add(id(t))
+        todo += [c for _, c in t.children if isinstance(c, RoutingTree)]
+        del t.children[:]
+        t.chip = (0, 0)
+    out["routes"].clear()
+    for d in list(out["allocations"].values()):
+        d.clear()
+    out["allocations"].clear()
+    out["placements"].clear()
+
+
+def snapshot(out):
+    """canonical form of what a run returned (kept by the caller, looked at again later)"""
+    vinv = out["o"]["Vinv"]
+    ids = list(out["o"]["ids"])
+    return (sorted((c, t) for c, t in tables_c04(out["tables1"]).items()),
+            sorted((vinv.get(v, -1), tuple(c)) for v, c in out["placements"].items()),
+            sorted((vinv.get(v, -1), sorted((ids.index(r) if r in ids else -1, sl.start, sl.stop) for r, sl in d.items()))
+                   for v, d in out["allocations"].items()))
+
+
+def eval_histories(ctx, hists):
+    plan = [(h, si) for h in hists for si in range(len(h["steps"]))]
+    pos = [0]
+    state = {}
+    kept = []
+    changed = []
+
+    def runner(prob):
+        h, si = plan[pos[0]]
+        st = h["steps"][si]
+        if si == 0:
+            reload_rig()
+            state.clear()
+            state["objs"] = {}
+            state["last"] = None
+        last = state["last"]
+        if st["objs"] == "same" and st["p"] in state["objs"]:
+            o = state["objs"][st["p"]]
+        elif st["objs"] == "edit" and last is not None:
+            o = edit_in_place(last, build(prob, reuse=last))
+            for k in [k for k, v in state["objs"].items() if v is o]:
+                del state["objs"][k]
+        else:
+            o = build(prob, reuse=last if st.get("reuse_ids") else None)
+        out = run_pipeline(prob, o=o, fail_at=st.get("fail"))
+        state["objs"][st["p"]] = o
+        state["last"] = o
+        return out
+
+    def after(prob, out):
+        h, si = plan[pos[0]]
+        st = h["steps"][si]
+        if out["status"] == "ok":
+            if st.get("scribble"):
+                scribble(out)
+            else:
+                kept.append((h, si, prob, out, snapshot(out)))
+        if si == len(h["steps"]) - 1:
+            # the caller looks again at every result it kept
+            for h2, sj, p2, o2, snap in kept:
+                if h2 is h and snapshot(o2) != snap:
+                    changed.append((h2, sj, p2, o2))
+            del kept[:]
+        pos[0] += 1
+    probs = [dict(h["probs"][h["steps"][si]["p"]]) for h, si in plan]
+    results = eval_problems(ctx, probs, register=False, runner=runner, after=after)
+    # results that changed after they were returned: judged again by the delivery oracle, as they are now
+    extra = {}
+    if changed:
+        reqs = []
+        for h, sj, p2, o2 in changed:
+            r, idx = lean_requests(dict(p2, light=True), o2, _random.Random(p2["seed"] ^ 0x77))
+            reqs.append((r[0], idx[0][1]))
+        reps = ctx.lean([r for r, _ in reqs])
+        for (h, sj, p2, o2), (r, qmeta), rep_ in zip(changed, reqs, reps):
+            bad = sorted(set(w for q in rep_ if isinstance(q, dict) and not q["ok"] for w in q["why"]))
+            extra[(id(h), sj)] = bad
+    fresh_n = [0]
+    for (h, si), res in zip(plan, results):
+        prob, st, findings, tags, nontriv, out = res
+        step = h["steps"][si]
+        ctx.traces += 1
+        hist_case = {"hist": dict(h, steps=h["steps"][:max(si + 1, len(h["steps"]) if (id(h), si) in extra else 0)])}
+        ctx.tag("hist_kind_" + h["kind"], "hist_step_objs_" + step["objs"], "hist_status_" + st, *tags)
+        if si == 0:
+            ctx.tag(*["hist_twin_aspect_" + a for a in str(h.get("aspect")).split(",")])
+        if step.get("scribble"):
+            ctx.tag("hist_results_scribbled")
+        if step.get("fail"):
+            ctx.tag("hist_fault_at_" + step["fail"], "hist_fault_" + ("raised" if st == "InjectedFault" else "not_reached"))
+        if (id(h), si) in extra:
+            ctx.tag("hist_kept_result_changed")
+            bad = extra[(id(h), si)]
+            ctx.mismatch("c01.kept-result-changed", "the tables / placements / allocations returned by run %d of a history "
+                         "(%s) changed after they were returned, during later calls" % (si + 1, h["kind"]), hist_case)
+            for why in bad:
+                ctx.violation(why, "the tables returned by run %d of a history changed after they were returned (later "
+                              "calls of the library with the caller's objects) and no longer deliver: %s" % (si + 1, why),
+                              hist_case)
+        viol = {}
+        for kind, key, what in findings:
+            if kind == "violation":
+                viol.setdefault(key, what)
+            else:
+                ctx.mismatch(key, what + " [run %d of a history of kind %s]" % (si + 1, h["kind"]), hist_case)
+        if viol:
+            alone = None
+            if fresh_n[0] < 4:
+                fresh_n[0] += 1
+                try:
+                    alone = fresh_failures(ctx, [prob])
+                except Exception:      # noqa
+                    alone = None
+            if alone is not None and set(viol) & alone:
+                ctx.tag("hist_violation_reproduced_alone")
+                register_result(ctx, prob, st, [f for f in findings if f[0] == "violation"], [], nontriv, out)
+                continue
+            for key, what in viol.items():
+                ctx.tag("hist_violation_history_dependent")
+                ctx.violation(key, what + " [run %d of a HISTORY of kind %s (%s): one caller, one process, objects %s%s; "
+                              "replay = the history]" % (si + 1, h["kind"], h.get("aspect"), step["objs"],
+                                                          "" if alone is None else "; the same run alone in a fresh "
+                                                          "interpreter passes"), hist_case)
+        if si == len(h["steps"]) - 1:
+            ctx.case({"hist": h}, True)
 
 
 # --------------------------------------------------------------------------------------------
@@ -1947,16 +2357,27 @@ def run(ctx):
         pprobs.append(gen_pipe_problem(ctx.rng, sz, faulty=(i % 4 == 3)))
     for i in range(0, len(pprobs), 50):
         eval_pipe_problems(ctx, pprobs[i:i + 50])
+    # histories: one caller, one process (rig re-imported at the start of each)
+    nh = ctx.scale(30, 400)
+    if ctx.extended:
+        nh *= 4
+    hists = [gen_history(ctx.rng) for _ in range(nh)]
+    for i in range(0, nh, 10):
+        eval_histories(ctx, hists[i:i + 10])
     # sequences of pipeline runs in one process with related key assignments
     nseq = ctx.scale(220, 2000)
     if ctx.extended:
         nseq *= 4
     eval_sequences(ctx, nseq)
+    # a handful of cases far beyond the usual size
+    eval_scale(ctx, ctx.scale(3, 14))
 
 
 def replay(ctx, payload):
     ctx.extra["rule"] = RULE
-    if "seq" in payload["case"]:
+    if "hist" in payload["case"]:
+        eval_histories(ctx, [payload["case"]["hist"]])
+    elif "seq" in payload["case"]:
         # a history-dependent finding: all runs of the sequence in this (fresh) process, each judged
         seq = payload["case"]["seq"]
         for k, prob in enumerate(seq):
